@@ -323,13 +323,18 @@ func c16Check(r *vcore.Run) vcore.Coverage {
 		return vcore.Coverage{}
 	}
 	scs := c16Scenarios(r.Thorough())
-	var execs, points int64
+	var execs, points, preempted int64
 	complete := true
 	maxThreads := 0
 	for _, sc := range scs {
 		st := c16RunScenario(r, sc, -1, 5*time.Minute)
 		execs += st.Executions
 		points += st.Points
+		for k, n := range st.Preemptions {
+			if k > 0 {
+				preempted += n
+			}
+		}
 		if !st.Complete {
 			complete = false
 			r.Notes["cap_hit"] = st.CapHit + " in " + fmt.Sprint(sc)
@@ -351,8 +356,8 @@ func c16Check(r *vcore.Run) vcore.Coverage {
 		"members are harness-side fakes scripted {success, failure, block until own context is cancelled then succeed/fail}; the caller finally cancels its context only in scenarios with a blocking member",
 		"ociunify is instrumented at build time by the vrewrite overlay; /repo is not modified",
 	}
-	return vcore.Coverage{States: execs, Transitions: points, TracesImpl: execs, Evaluations: execs, Nontrivial: execs, Exhaustive: complete,
-		Rule: fmt.Sprintf("%d scenarios (5 entry points x 4x4 member scripts x canceller on/off x reader Close error on/off) x ALL schedules of caller, two sender goroutines and canceller (stateless DFS, no preemption bound); states = complete schedules executed, transitions = scheduling points executed", len(scs))}
+	return vcore.Coverage{States: execs, Transitions: points, TracesImpl: execs, Evaluations: execs, Nontrivial: preempted, Exhaustive: complete,
+		Rule: fmt.Sprintf("non-trivial = complete schedules containing at least one preemption (a thread switched out while still enabled), measured; %d scenarios (5 entry points x 4x4 member scripts x canceller on/off x reader Close error on/off) x ALL schedules of caller, two sender goroutines and canceller (stateless DFS, no preemption bound); states = complete schedules executed, transitions = scheduling points executed", len(scs))}
 }
 
 func c16Replay(r *vcore.Run, sub string, raw json.RawMessage) {
